@@ -720,7 +720,7 @@ CheckStmt(s, env) ==
               IF r.err # "" THEN Fail(env, r.err)
               ELSE IF FirstErr(errs) # "" THEN Fail(env, FirstErr(errs))
               ELSE MarkUsed(env, IdentsOfSeq(s.es))
-    [] s.k \in {"break", "continue"} -> env
+    [] s.k \in {"break", "continue", "fallthrough"} -> env      \* (placement: SynStmt below)
     [] s.k = "block" -> CheckBlock(s.body, env)
     [] s.k = "closure" ->      \* func() R { body }()
          LET e1 == CheckBlock(s.body, [env EXCEPT !.res = TYs(s.res)]) IN [e1 EXCEPT !.res = env.res]
@@ -731,8 +731,8 @@ CheckStmt(s, env) ==
          ELSE MarkUsed(env, {s.name})
 
 (* ------------------------------------------------------------------ syntactic rules: terminating statements,
-   break/continue placement, labels *)
-RECURSIVE HasBreak(_, _, _), TermStmt(_), SynStmts(_, _), SynStmt(_, _), LabelsUsed(_)
+   break/continue/fallthrough placement, labels *)
+RECURSIVE HasBreak(_, _, _), TermStmt(_), SynStmts(_, _), SynStmt(_, _), SynClause(_, _, _, _), LabelsUsed(_)
 ClauseBodies(s) == [j \in 1..Len(s.clauses) |-> s.clauses[j].body]
 Breakable(s) == s.k \in {"for", "switch", "tswitch", "select"}
 \* is there a break referring to the statement labelled lbl ("" = none) whose body list is ss?
@@ -747,6 +747,9 @@ HasBreak(ss, lbl, direct) ==
        [] s.k \in {"switch", "tswitch", "select"} -> \E i \in 1..Len(s.clauses) : HasBreak(s.clauses[i].body, lbl, FALSE)
        [] OTHER -> FALSE
 IsTerm(ss) == Len(ss) > 0 /\ TermStmt(ss[Len(ss)])
+\* a "switch" statement is terminating when "... the statement lists in each case, including the default, end in a terminating
+\* statement, or a possibly labeled "fallthrough" statement" (labelled fallthrough statements are not generated)
+EndsInFallthrough(ss) == Len(ss) > 0 /\ ss[Len(ss)].k = "fallthrough"
 \* Go spec, "Terminating statements"
 TermStmt(s) ==
   CASE s.k = "return" -> TRUE
@@ -756,7 +759,7 @@ TermStmt(s) ==
     [] s.k = "for" -> ~s.hascond /\ ~HasBreak(s.body, s.label, TRUE)
     [] s.k \in {"switch", "tswitch"} ->
          (\E j \in 1..Len(s.clauses) : s.clauses[j].isdef)
-         /\ \A j \in 1..Len(s.clauses) : IsTerm(s.clauses[j].body) /\ ~HasBreak(s.clauses[j].body, s.label, TRUE)
+         /\ \A j \in 1..Len(s.clauses) : (IsTerm(s.clauses[j].body) \/ EndsInFallthrough(s.clauses[j].body)) /\ ~HasBreak(s.clauses[j].body, s.label, TRUE)
     [] s.k = "select" -> \A j \in 1..Len(s.clauses) : IsTerm(s.clauses[j].body) /\ ~HasBreak(s.clauses[j].body, s.label, TRUE)
     [] OTHER -> FALSE
 
@@ -772,11 +775,25 @@ LabelsUsed(ss) ==
 
 \* c: [loop, brk: inside a for / breakable statement;  ll, bl: labels of enclosing for / breakable statements]
 SynStmts(ss, c) == FirstErr([j \in 1..Len(ss) |-> SynStmt(ss[j], c)])
+(* Go spec, Fallthrough statements: "A "fallthrough" statement transfers control to the first statement of the next case clause
+   in an expression "switch" statement.  It may be used only as the final non-empty statement in such a clause."  Expression
+   switches: "... the "fallthrough" statement ... may appear as the last statement of all but the last clause of an expression
+   switch."  Type switches: "The "fallthrough" statement is not permitted in a type switch."
+   So: ss is the statement list of a clause of a statement of kind sk (switch, tswitch, select), islast: it is the textually last
+   clause.  Only a fallthrough that is the LAST statement OF THE LIST ITSELF is judged here; every other fallthrough - earlier in
+   the list, in a block / if / for / function literal nested in the clause, in a for body, at function level - reaches
+   SynStmt, where it is out of place. *)
+SynClause(ss, c, sk, islast) ==
+  FirstErr([j \in 1..Len(ss) |->
+     IF ss[j].k = "fallthrough" /\ j = Len(ss) /\ sk \in {"switch", "tswitch"}
+     THEN (IF sk = "tswitch" THEN "cannot fallthrough in type switch" ELSE IF islast THEN "cannot fallthrough final case in switch" ELSE "")
+     ELSE SynStmt(ss[j], c)])
 SynStmt(s, c) ==
   CASE s.k = "break" -> IF s.label = "" THEN (IF c.brk THEN "" ELSE "break is not in a loop, switch, or select")
                         ELSE IF s.label \in c.bl THEN "" ELSE "invalid break label"
     [] s.k = "continue" -> IF s.label = "" THEN (IF c.loop THEN "" ELSE "continue is not in a loop")
                            ELSE IF s.label \in c.ll THEN "" ELSE "invalid continue label"
+    [] s.k = "fallthrough" -> "fallthrough statement out of place"      \* (the one valid position is decided by SynClause)
     [] s.k = "block" -> SynStmts(s.body, c)
     [] s.k = "if" -> FirstErr(<<SynStmts(s.init, c), SynStmts(s.then, c), IF s.haselse THEN SynStmts(s.els, c) ELSE "">>)
     [] s.k = "for" ->
@@ -786,7 +803,8 @@ SynStmt(s, c) ==
     [] s.k \in {"switch", "tswitch", "select"} ->
          IF s.label # "" /\ s.label \notin UNION {LabelsUsed(s.clauses[i].body) : i \in 1..Len(s.clauses)} THEN "label defined and not used"
          ELSE FirstErr([i \in 1..Len(s.clauses) |->
-                 SynStmts(s.clauses[i].body, [c EXCEPT !.brk = TRUE, !.bl = @ \cup (IF s.label = "" THEN {} ELSE {s.label})])])
+                 SynClause(s.clauses[i].body, [c EXCEPT !.brk = TRUE, !.bl = @ \cup (IF s.label = "" THEN {} ELSE {s.label})],
+                           s.k, i = Len(s.clauses))])
     [] s.k = "closure" ->
          LET e == SynStmts(s.body, [loop |-> FALSE, brk |-> FALSE, ll |-> {}, bl |-> {}]) IN
          IF e # "" THEN e ELSE IF Len(s.res) > 0 /\ ~IsTerm(s.body) THEN "missing return" ELSE ""
